@@ -8,6 +8,7 @@ package main
 
 import (
 	"fmt"
+	"hash/fnv"
 	"io"
 	"sync"
 	"time"
@@ -95,10 +96,10 @@ var plugins = []pluginDef{
 	8: {"discard", []string{`{}`}, ""},
 	9: {"flatten", []string{`{"field":"a","prefix":"pre_"}`, `{"field":"a.b"}`, `{"field":"log","prefix":"log."}`}, ""},
 	10: {"hash", []string{
-		`{"fields":[{"field":"message"}],"result_field":"hash"}`,
-		`{"fields":[{"field":"a.b","max_size":3},{"field":"message","format":"normalize","max_size":40}],"result_field":"a.hash"}`,
+		`{"fields":[{"field":"message","format":"no"}],"result_field":"hash"}`,
+		`{"fields":[{"field":"a.b","format":"no","max_size":3},{"field":"message","format":"normalize","max_size":40}],"result_field":"a.hash"}`,
 		`{"fields":[{"field":"log","format":"normalize"}],"result_field":"hash","normalizer":{"builtin_patterns":"curly_bracketed|square_bracketed|parenthesized|double_quoted|single_quoted|grave_quoted"}}`,
-		`{"fields":[{"field":"log","format":"normalize"},{"field":"message","format":"normalize"}],"result_field":"message","normalizer":{"builtin_patterns":"int|uuid|double_quoted","custom_patterns":[{"placeholder":"<date>","re":"\\d\\d\\.\\d\\d\\.\\d\\d\\d\\d","priority":"last"},{"placeholder":"<nginx_datetime>","re":"\\d\\d\\d\\d/\\d\\d/\\d\\d\\ \\d\\d:\\d\\d:\\d\\d"}]}}`}, "C13"},
+		`{"fields":[{"field":"log","format":"normalize"},{"field":"message","format":"normalize"}],"result_field":"message","normalizer":{"builtin_patterns":"int|uuid|double_quoted","custom_patterns":[{"placeholder":"<date>","re":"\\d\\d\\.\\d\\d\\.\\d\\d\\d\\d","priority":"last"},{"placeholder":"<nginx_datetime>","re":"\\d\\d\\d\\d/\\d\\d/\\d\\d\\ \\d\\d:\\d\\d:\\d\\d","priority":"first"}]}}`}, "C13"},
 	11: {"join", []string{
 		`{"field":"log","start":"/^(panic:)|(http: panic serving)/","continue":"/(^\\s*$)|(goroutine [0-9]+ \\[)|(\\([0-9]+x[0-9,a-f]+)|(\\.go:[0-9]+ \\+[0-9]x)|(\\/.*\\.go:[0-9]+)|(\\(...\\))|(main\\.main\\(\\))|(created by .*\\/.*\\.)|(^\\[signal)|(panic.+[0-9]x[0-9,a-f]+)|(panic:)/"}`,
 		`{"field":"log","start":"/^a/","continue":"/^b/","max_event_size":10}`,
@@ -119,8 +120,8 @@ var plugins = []pluginDef{
 	17: {"mask", []string{
 		`{"masks":[{"re":"\\b(\\d{1,4})\\D?(\\d{1,4})\\D?(\\d{1,4})\\D?(\\d{1,4})\\b","groups":[1,2,3]}]}`,
 		`{"masks":[{"re":"(\\d)(\\d)?","groups":[1,2],"max_count":3},{"re":"(test)","groups":[1],"process_fields":["message"],"replace_word":"***"}],"mask_applied_field":"masked","mask_applied_value":"yes","ignore_fields":["a.b"]}`,
-		`{"masks":[{"re":"a(b)?","groups":[1]},{"re":"x+","groups":[0],"cut_values":true}],"process_fields":["message","log","a.b"],"skip_mismatched":true}`,
-		`{"masks":[{"match_rules":[{"rules":[{"values":["secret"],"mode":"contains","case_insensitive":true}]}],"re":"\\w+","groups":[0],"applied_metric_name":"m1","metric_labels":["service"]}],"applied_metric_labels":["service","level"]}`}, "C17"},
+		`{"masks":[{"re":"a(b)?","groups":[1]},{"re":"(x+)","groups":[0],"cut_values":true}],"process_fields":["message","log","a.b"],"skip_mismatched":true}`,
+		`{"masks":[{"match_rules":[{"rules":[{"values":["secret"],"mode":"contains","case_insensitive":true}]}],"re":"(\\w+)","groups":[0],"metric_name":"m1","metric_labels":["service"]}],"applied_metric_labels":["service","level"]}`}, "C17"},
 	18: {"modify", []string{
 		`{"new":"value is ${a.b}."}`,
 		`{"level":"${message|re(\"(\\\\w+):.*\",-1,[1],\",\")}"}`,
@@ -148,12 +149,12 @@ var plugins = []pluginDef{
 	25: {"split", []string{`{"field":"items"}`, `{"field":"a.b"}`, `{"field":"log"}`}, "C13"},
 	26: {"throttle", []string{
 		`{"throttle_field":"service","default_limit":3,"bucket_interval":"1m","buckets_count":3,"time_field":"time"}`,
-		`{"throttle_field":"a.b","time_field":"ts","time_field_format":"unixtime","default_limit":100,"limit_kind":"size","rules":[{"limit":1,"conditions":{"level":"error"}},{"limit":2,"limit_kind":"size","conditions":{"service":"x","level":"warn"}}]}`,
+		`{"throttle_field":"a.b","time_field":"ts","time_field_format":"unixtime","default_limit":100,"limit_kind":"size","rules":[{"limit":1,"limit_kind":"count","conditions":{"level":"error"}},{"limit":2,"limit_kind":"size","conditions":{"service":"x","level":"warn"}}]}`,
 		`{"default_limit":4,"limit_distribution":{"field":"level","ratios":[{"ratio":0.5,"values":["error"]},{"ratio":0.3,"values":["warn","info"]}],"metric_labels":["service"]}}`}, "C16"},
 	27: {"k8s-multiline", []string{
-		`{"split_event_size":1000000}`,
-		`{"split_event_size":1000000,"only_node":true}`,
-		`{"split_event_size":131100,"allowed_pod_labels":["app"]}`}, "C15"},
+		`{"offsets_file":"/tmp/verif_c13_offsets.yaml","split_event_size":1000000}`,
+		`{"offsets_file":"/tmp/verif_c13_offsets.yaml","split_event_size":1000000,"only_node":true}`,
+		`{"offsets_file":"/tmp/verif_c13_offsets.yaml","split_event_size":131100,"allowed_pod_labels":["app"]}`}, "C15"},
 }
 
 var pluginIdx = func() map[string]int {
@@ -240,10 +241,20 @@ func newInstance(typ string, cfgJSON []byte, st *pipeline.Settings, ctl pipeline
 		k8sMeta()
 	}
 	instSeq++
+	// a fresh pipeline name per instance: throttle / debug keep per-pipeline global state, which
+	// must not leak from one case into the next. hash caches its (stateless, expensive to compile:
+	// a lexmachine DFA over all built-in patterns) normaliser per pipeline name + index: share it
+	// between the instances of one configuration, as the processors of one pipeline do.
+	name := fmt.Sprintf("verif_c13_%d", instSeq)
+	if typ == "hash" {
+		h := fnv.New64a()
+		h.Write(cfgJSON)
+		name = fmt.Sprintf("verif_c13_hash_%x", h.Sum64())
+		index = 0
+	}
 	params := &pipeline.ActionPluginParams{
 		PluginDefaultParams: pipeline.PluginDefaultParams{
-			// a fresh pipeline name per instance: throttle / debug / hash keep per-pipeline globals
-			PipelineName:     fmt.Sprintf("verif_c13_%d", instSeq),
+			PipelineName:     name,
 			PipelineSettings: st,
 			MetricCtl:        metric.NewCtl("verif", prometheus.NewRegistry(), time.Minute, 0),
 		},
